@@ -42,10 +42,10 @@ ASSUMPTIONS = [
     "USE_JIT off (library runs as plain Python); CPU only",
 ]
 BUDGET = {
-    # nominal (idle 16-core machine): quick ~15 s, thorough ~3-4 min.  `time` (thorough only) is the soft
+    # nominal (idle 16-core machine): quick ~15 s, thorough ~2-3 min.  `time` (thorough only) is the soft
     # limit per shard after which no further case is started; the floors are what a run must reach.
     "quick": dict(cases=128, shards=4, timeout=900),
-    "thorough": dict(cases=1500, shards=16, timeout=3000, time=900),
+    "thorough": dict(cases=1000, shards=16, timeout=1800, time=540),
 }
 _ROUTES = ["construct", "call_full", "call_idx_int", "call_idx_tensor", "call_idx_truncated",
            "calc_full_log_probs_chunked", "state_dict", "load_state_dict", "parse_arpa_lm"]
@@ -71,22 +71,27 @@ FLOORS = {
                   "state_dict_through_torch_save": 60},
         "distinct": 200,
     },
-    # nominal 16 x 1500 random + 48 large cases; the floors are about a third of that so that a
-    # slow machine (soft time limit reached) still gives a verdict, never a silent pass
+    # nominal 16 x 1000 random + 48 large cases (the large ones run first); the floors are about a
+    # third of that so that a slow machine (soft time limit reached) still gives a verdict
     "thorough": {
-        "events": {"construct": 9000, "call_full": 17000, "call_idx_int": 60000, "call_idx_tensor": 40000,
-                   "calc_full_log_probs_chunked": 60000, "load_state_dict": 8000, "parse_arpa_lm": 3000,
-                   "assert:full-vs-oracle": 8000, "assert:reloaded-equals-original": 8000,
-                   "assert:arpa-model-vs-oracle": 1000},
-        "classes": dict({c: 400 for c in set(G.CLASSES)},
-                        **{k: 2000 for k in G.SOS_KINDS},
-                        offsets_uint8=6000, offsets_int16=500, offsets_int32=8, ids_int16=4,
-                        built_int32_stored_int16=3, built_wider_than_stored=400,
-                        level_gt_32767=8, level_gt_255=400, neginf_entry_with_children=3000,
-                        backfilled_suffix=3000),
-        "stats": {"oracle_answer_order_3": 50000, "oracle_answer_order_4": 15000,
-                  "oracle_backoff_steps_3": 50000, "abs_parent_pos_gt_255_with_uint8": 400},
-        "distinct": 6000,
+        "events": {"construct": 5500, "call_full": 10000, "call_idx_int": 70000, "call_idx_tensor": 30000,
+                   "call_idx_truncated": 35000, "calc_full_log_probs_chunked": 37000, "state_dict": 5000,
+                   "load_state_dict": 5000, "parse_arpa_lm": 1800,
+                   "assert:full-vs-oracle": 5000, "assert:reloaded-vs-oracle": 5000,
+                   "assert:reloaded-equals-original": 5000, "assert:chunked-equals-full": 37000,
+                   "assert:idx-int-equals-full": 70000, "assert:idx-tensor-equals-full": 30000,
+                   "assert:arpa-entries": 40000, "assert:arpa-model-vs-oracle": 600},
+        "classes": dict({c: 300 for c in set(G.CLASSES)},
+                        **{k: 1600 for k in G.SOS_KINDS},
+                        offsets_uint8=4000, offsets_int16=250, offsets_int32=8, ids_int16=4,
+                        built_int32_stored_int16=3, built_wider_than_stored=280,
+                        level_gt_32767=8, level_gt_255=200, neginf_entry_with_children=1900,
+                        backfilled_suffix=2000, T0=700, B1=1200),
+        "stats": {"oracle_answer_order_2": 240000, "oracle_answer_order_3": 55000, "oracle_answer_order_4": 16000,
+                  "oracle_backoff_steps_1": 160000, "oracle_backoff_steps_2": 170000,
+                  "oracle_backoff_steps_3": 60000, "oracle_nonzero_backoff_used": 300000,
+                  "abs_parent_pos_gt_255_with_uint8": 300, "state_dict_through_torch_save": 2000},
+        "distinct": 3700,
     },
 }
 N_LARGE = {"quick": 4, "thorough": 48}
@@ -149,7 +154,10 @@ def _cmp(mon, got, exp, monitor, tol=1e-5, rel=1e-6, **details):
     bad = (~fin & ~((g == e) & ~torch.isnan(g))) | (diff > allowed)
     if not bool(bad.any()):
         if g.numel():
-            mon.dev(monitor, float(diff.max()), tol)
+            k = int(torch.argmax((diff / allowed).reshape(-1)))
+            mon.dev(monitor + " |diff|/(abs+rel*|expected|)", float((diff / allowed).reshape(-1)[k]), 1.0)
+            k = int(torch.argmax(diff.reshape(-1)))
+            mon.dev(monitor + " max |diff|", float(diff.reshape(-1)[k]), float(allowed.reshape(-1)[k]))
         mon.check(True, monitor)
         return
     score = torch.where(fin, diff, torch.full_like(diff, float("inf"))) * bad
